@@ -3,13 +3,14 @@ outputs A, the reducer results R, the stage's own context C and the reducer keys
   k in K            -> (A+R)[k]   (the stage's own value does not override a reducer key)
   k in C, not in K  -> C[k], except both lists: A[k] followed, in order, by each item of C[k] that the accumulated list does not hold yet
   k not in C        -> (A+R)[k]
-Bound: keys {p, q}, values from {absent, 1, 2, [1], [1,2], [3], [1,1]} (a list with a repeated entry: two identical buffered signals), reducer on p or none, up to 2 upstream branches."""
+Bound: keys {p, q}, values from {absent, 1, 2, [1], [1,2], [3], [1,1]} (a list with a repeated entry: two identical buffered signals), reducer on p or none, up to 2 upstream branches in every finished status that lets the join start."""
 import itertools
 from unittest.mock import MagicMock
 
 from _b import *
 from stabilize.handlers.start_stage.handler import StartStageHandler
 from stabilize.models.stage import StageExecution
+from stabilize.models.status import WorkflowStatus
 from stabilize.models.task import TaskExecution
 from stabilize.models.workflow import Workflow
 from stabilize.reducers import apply_output_reducers
@@ -17,6 +18,11 @@ from stabilize.reducers import apply_output_reducers
 ABS = object()
 VALS = [ABS, 1, 2, [1], [1, 2], [3], [1, 1]]
 failures, cases, nontrivial, samples = [], 0, 0, []
+# every upstream branch the join may start after -- SUCCEEDED, FAILED_CONTINUE, STOPPED, SKIPPED -- contributes what it published
+tier = sys.argv[1] if len(sys.argv) > 1 else "quick"
+SMALL = [VALS[0], VALS[1], VALS[3]]
+DONE = ("SUCCEEDED", "FAILED_CONTINUE", "STOPPED", "SKIPPED")
+BRANCHES = [([], ())] + [([{"p": 1}], (a,)) for a in DONE] + [([{"p": 1}, {"p": 2}], (a, b)) for a in DONE for b in DONE]
 
 
 def mk(d):
@@ -27,13 +33,16 @@ def mk(d):
 
 for ap, aq, cp, cq in itertools.product(VALS, repeat=4):
     for K in ({}, {"p": "sum"}, {"p": "collect"}):
-        for branches in ([], [{"p": 1}], [{"p": 1}, {"p": 2}]):
-            if K.get("p") == "sum" and any(isinstance(b.get("p"), list) for b in branches):
-                continue
+        for branches, sts in BRANCHES:
+            if not K and any(x != "SUCCEEDED" for x in sts):
+                continue  # the branch status only matters where the branches are read again (the reducers)
+            if tier != "thorough" and any(x != "SUCCEEDED" for x in sts) and not all(any(v is w for w in SMALL) for v in (ap, aq, cp, cq)):
+                continue  # quick tier: the status dimension over the reduced value set
             A, C = mk({"p": ap, "q": aq}), mk({"p": cp, "q": cq})
             repo = MagicMock()
             repo.get_merged_ancestor_outputs.return_value = mk(A)
-            ups = [StageExecution(ref_id=f"u{i}", type="t", name="u", outputs=dict(b)) for i, b in enumerate(branches)]
+            ups = [StageExecution(ref_id=f"u{i}", type="t", name="u", outputs=dict(b), status=WorkflowStatus[st_])
+                   for i, (b, st_) in enumerate(zip(branches, sts))]
             repo.get_upstream_stages.return_value = ups
             h = StartStageHandler(queue=MagicMock(), repository=repo)
             stage = StageExecution(ref_id="s", type="t", name="s", context=mk(C), output_reducers=dict(K),
@@ -68,4 +77,4 @@ for ap, aq, cp, cq in itertools.product(VALS, repeat=4):
                                  "want": {k: (None if v is ABS else v) for k, v in exp.items()}})
             if len(samples) < 3 and A and C and K:
                 samples.append({"A": A, "C": C, "K": K, "branches": branches})
-done(cases, nontrivial, failures, "keys p,q; values absent/1/2/[1]/[1,2]/[3]/[1,1]; reducer none|sum|collect on p; 0-2 branches", samples)
+done(cases, nontrivial, failures, "keys p,q; values absent/1/2/[1]/[1,2]/[3]/[1,1]; reducer none|sum|collect on p; 0-2 branches, each SUCCEEDED / FAILED_CONTINUE / STOPPED / SKIPPED", samples)
